@@ -198,3 +198,46 @@ def random_forest(rng, nlinks=None, max_stack=3, free_root_p=0.5, ortho=False, o
          'ctrlrange': rng.choice([None, (-1, 1), (-0.5, 2), (0, 1.5)]), 'forcerange': rng.choice([None, (-2, 2), (-0.5, 4), (-10, 1)])}
     spec['actuators'].append(a)
   return spec
+
+
+def tree_model(rng, words, parents=None, free_root=True, ortho=True, limits_p=1.0, actuators=0, joint_props=False, offsets=True, root_word=None, geoms=False):
+  """root (free, or world-attached with stack `root_word`) + one link per entry of `words` (stack words), parents[i] = index into the link list (0 = root)."""
+  n = len(words)
+  parents = parents or [i for i in range(n)]     # chain by default: link i+1 hangs off link i
+  bodies = []
+  root = {'name': 'b0', 'parent': -1, 'pos': (0, 0, 1.0), 'quat': (1, 0, 0, 0), 'joints': [], 'geoms': []}
+  if free_root:
+    root['joints'].append({'name': 'j0_f', 'type': 'free'})
+  specs = [(root, root_word if not free_root else None)]
+  for i, w in enumerate(words):
+    b = {'name': 'b%d' % (i + 1), 'parent': parents[i], 'pos': vec(rng) if offsets else (0.3, 0, 0), 'quat': rng.choice(QUATS) if offsets else (1, 0, 0, 0), 'joints': [], 'geoms': []}
+    specs.append((b, w))
+  for i, (b, w) in enumerate(specs):
+    if w:
+      anchor = vec(rng, -0.2, 0.2) if offsets and rng.random() < 0.6 else (0, 0, 0)
+      frame = rng.choice(ORTHO)
+      perm = list(range(3))
+      rng.shuffle(perm)
+      for k, c in enumerate(w):
+        ax = frame[perm[k]] if ortho else rng.choice(AXES)
+        j = {'name': 'j%d_%d' % (i, k), 'type': 'hinge' if c == 'h' else 'slide', 'axis': ax, 'pos': anchor, 'range': None}
+        if rng.random() < limits_p:
+          j['range'] = (-dec(rng, 0.5, 1.5), dec(rng, 0.5, 1.5))
+        if joint_props:
+          j['damping'] = rng.choice([0, 0.5, 1.5])
+          j['armature'] = rng.choice([0, 0.1, 0.25])
+          j['stiffness'] = rng.choice([0, 2.0, 5.0])
+        b['joints'].append(j)
+    b['mass'] = dec(rng, 0.5, 3.0)
+    b['ipos'] = vec(rng, -0.1, 0.1) if offsets else (0, 0, 0)
+    b['inertia'] = (dec(rng, 0.2, 0.35, 2), dec(rng, 0.2, 0.35, 2), dec(rng, 0.2, 0.35, 2))
+    b['geoms'].append({'type': 'sphere', 'size': (0.1,), 'pos': (0, 0, 0), 'quat': (1, 0, 0, 0), 'contype': 1 if geoms else 0, 'conaffinity': 1 if geoms else 0})
+    bodies.append(b)
+  spec = dfs_order({'bodies': bodies, 'actuators': []})
+  jn = [j for b in spec['bodies'] for j in b['joints'] if j['type'] != 'free']
+  for k in range(actuators if jn else 0):
+    j = jn[k % len(jn)]
+    kind = ['motor', 'position', 'velocity'][k % 3]
+    spec['actuators'].append({'kind': kind, 'joint': j['name'], 'gear': rng.choice([1, 2, 0.5]), 'kp': rng.choice([1, 4]), 'kv': rng.choice([0.5, 2]),
+                              'ctrlrange': rng.choice([None, (-1, 1)]), 'forcerange': rng.choice([None, (-2, 2)])})
+  return spec
